@@ -843,6 +843,12 @@ V("c12-stop-defaulted-with-or", "C12", "R12.6", "dask_array/slicing/_utils.py",
   "            if idx.start in (None, 0) and idx.stop is None and idx.step in (None, 1):\n                return slice(None, None, None)\n            return idx", "            if idx.step in (None, 1):\n                return slice(idx.start or None, idx.stop or None, None)\n            return idx", expect="normalize_slice")
 V("c12-twin-stop-compared-with-none", "C12", "-", "dask_array/slicing/_utils.py",
   "            if idx.start in (None, 0) and idx.stop is None and idx.step in (None, 1):", "            if (idx.start is None or idx.start == 0) and idx.stop is None and (idx.step is None or idx.step == 1):", twin=True)
+V("c22-expression-passes-extra-argument-to-wrapper", "C22", "R22.4", "dask_array/io/_from_array.py",
+  "            return FromArrayLayer(self._name, self.array, self.chunks, self.operand(\"_region\"))", "            return FromArrayLayer(self._name, self.array, self.chunks, self.operand(\"_region\"), self.operand(\"lock\"))", expect="FromArrayLayer")
+V("c22-wrapper-init-gains-required-parameter", "C22", "R22.4", "dask_array/_frisky/creation.py",
+  "    def __init__(self, name, func, chunks, kwargs=None):", "    def __init__(self, name, func, chunks, dtype, kwargs=None):", expect="CreationLayer")
+V("c22-twin-expression-calls-wrapper-with-keywords", "C22", "-", "dask_array/io/_from_array.py",
+  "            return FromArrayLayer(self._name, self.array, self.chunks, self.operand(\"_region\"))", "            return FromArrayLayer(self._name, self.array, self.chunks, region=self.operand(\"_region\"))", twin=True)
 V("c02-detector-uses-forward-permutation", "C02", "R02.6", "dask_array/_blockwise.py",
   "        inv = expr._inverse_axes\n        dep_mapping = tuple(parent_mapping[inv[i]] for i in range(len(inv)))", "        dep_mapping = tuple(parent_mapping[ax] for ax in expr.axes)", expect="_symbolic_mapping")
 V("c02-twin-detector-local-rename", "C02", "-", "dask_array/_blockwise.py",
